@@ -612,6 +612,37 @@ func PackageVC(w *World, prop string) *FnVC {
 		vc.Obls = append(vc.Obls, &Obligation{Name: fmt.Sprintf("package/fieldinv-zero#%d:%s.%s", i, fi[0], fi[1]), Class: "fieldinv", Props: props, Func: "package ice",
 			Desc: "declared field invariant holds of the zero value: " + fi[2], Pos: fi[4], Guard: True, Goal: t, Claimed: true})
 	}
+	for _, cf := range w.Spec.Confined {
+		props := strings.Split(cf[2], ",")
+		if !hasProp(props, prop) {
+			continue
+		}
+		fn := w.Fns[cf[0]]
+		if fn == nil {
+			vc.Unsupported = append(vc.Unsupported, fmt.Sprintf("%s: confined: no function %s", cf[3], cf[0]))
+			continue
+		}
+		allowed := map[string]bool{"G$allocTop": true}
+		for _, a := range strings.Fields(cf[1]) {
+			allowed["G$"+a] = true
+		}
+		for _, gv := range w.Spec.GhostVars {
+			allowed["G$"+gv[0]] = true
+		}
+		var hs []string
+		for h := range w.modsets[fn] {
+			if strings.HasPrefix(h, "G$") && !allowed[h] {
+				hs = append(hs, h)
+			}
+		}
+		sort.Strings(hs)
+		for _, h := range hs {
+			vc.Obls = append(vc.Obls, &Obligation{Name: fmt.Sprintf("package/confined:%s:%s", cf[0], strings.TrimPrefix(h, "G$")), Class: "confined", Props: props, Func: "package ice",
+				Desc: fmt.Sprintf("%s (transitively) stores package variable %s", cf[0], strings.TrimPrefix(h, "G$")), Pos: cf[3], Guard: True, Goal: False, Claimed: true})
+		}
+		vc.Obls = append(vc.Obls, &Obligation{Name: "package/confined:" + cf[0], Class: "confined", Props: props, Func: "package ice",
+			Desc: fmt.Sprintf("%s stores no package-level variable other than {%s} on any path (transitive mod-set, %d heaps)", cf[0], cf[1], len(w.modsets[fn])), Pos: cf[3], Guard: True, Goal: True, Claimed: true})
+	}
 	seen := map[string]bool{}
 	for _, gi := range w.Spec.GlobalInvs {
 		toks, _ := lexSpec(gi[0])
